@@ -23,7 +23,10 @@ Record obs := mkObs {
   o_store : list brun;            (* the backing bytes *)
   o_pos : option Z }.             (* Buffer position (memory backend only) *)
 
-Inductive init := ICreate (co : copts) | ILoad (bytes : list brun).
+Inductive init :=
+| ICreate (co : copts)
+| ICreateO (opts : list copt) (now : Z) (rnd : list byte)   (* options as given; clock; random ID *)
+| ILoad (bytes : list brun).
 
 (* read-only questions asked of the handle after a step *)
 Inductive query :=
@@ -145,8 +148,23 @@ Fixpoint check_steps (cid : Z) (i : Z) (s : state) (steps : list (op * obs * lis
 
 Definition empty_mem : mem := mkM (mkH [] [] [] [] [] 0 0 0 0 0 0 0 0) [] [].
 
+Definition check_create (c : hcase) (co : copts) : list (Z * Z * Z) :=
+      let '(os, r, io) := create sha (c_backend c) co in
+      match os with
+      | Some s =>
+          map (fun x => (c_id c, 0, x))
+              (check_state (s_mem s) (s_io s) r (c_init_obs c) true
+               ++ (if c_has_handle c then [] else [10]) ++ check_queries s (c_init_queries c))
+          ++ check_steps (c_id c) 1 s (c_steps c)
+      | None =>
+          map (fun x => (c_id c, 0, x))
+              (check_state empty_mem io r (c_init_obs c) false
+               ++ (if c_has_handle c then [10] else []))
+      end.
+
 Definition check_case (c : hcase) : list (Z * Z * Z) :=
   match c_init c with
+  | ICreateO opts now rnd => check_create c (resolve_copts opts now rnd)
   | ICreate co =>
       let '(os, r, io) := create sha (c_backend c) co in
       match os with
